@@ -18,7 +18,7 @@ import collections
 import copy
 import json
 
-from typedpy import (Deserializer, Serializer, Structure, serialize, deserialize_structure, structure_to_schema,
+from typedpy import (Deserializer, Serializer, Structure, ImmutableStructure, serialize, deserialize_structure, structure_to_schema,
                      schema_to_struct_code,
                      Extend, Omit, Pick, Partial, AllFieldsRequired, FunctionCall, Constant)
 from typedpy.serialization.fast_serialization import create_serializer
@@ -423,6 +423,47 @@ def build_ext_class(name, spec, with_defaults=True):
     return type(name, (Structure,), body)
 
 
+IMM_DECL_FIELDS = [["ts", {"k": "tuplePos", "items": [{"k": "struct", "name": "ImmInner", "required": ["x"], "addl": True,
+                                                        "fields": [["x", {"k": "integer"}], ["l", {"k": "seqOf", "item": {"k": "integer"}}]]},
+                                                       {"k": "integer"}]}],
+                   ["any", {"k": "anything"}], ["tu", {"k": "tuplePos", "items": [{"k": "anything"}, {"k": "integer"}]}],
+                   ["ar", {"k": "seqAny"}], ["mp", {"k": "mapAny"}], ["opt", {"k": "anything"}]]
+_IMM_CACHE = {}
+
+
+def build_imm_class(owner):
+    """immutable owners holding tuple-valued data: owner = "structure" (ImmutableStructure) | "fields" (a mutable
+    Structure all of whose fields are declared immutable=True)"""
+    import typedpy as T
+    inner = type("ImmInner", (Structure,), {"x": T.Integer(), "l": T.Array(items=T.Integer()), "_required": ["x"]})
+    imm = {"immutable": True} if owner == "fields" else {}
+    body = {"ts": T.Tuple(items=[T.ClassReference(inner), T.Integer()], **imm), "any": T.Anything(**imm),
+            "tu": T.Tuple(items=[T.Anything(), T.Integer()], **imm), "ar": T.Array(**imm), "mp": T.Map(**imm),
+            "opt": T.Anything(**imm), "_required": [], "_additional_properties": True}
+    cls = type("ImmOwner_" + owner, (ImmutableStructure if owner == "structure" else Structure,), body)
+    _IMM_CACHE[owner] = inner
+    decl = {"k": "struct", "name": cls.__name__, "required": [], "addl": True, "fields": copy.deepcopy(IMM_DECL_FIELDS),
+            "immutable": True}
+    return cls, decl
+
+
+def imm_values(owner, as_doc, only=None):
+    """tuple-valued arguments holding mutable elements at depth 1-2 (JSON lists in the document form)"""
+    inner = _IMM_CACHE.get(owner)
+    seq = (lambda *xs: list(xs)) if as_doc else (lambda *xs: tuple(xs))
+    vals = {"ts": seq({"x": 1, "l": [1, 2]} if as_doc else inner(x=1, l=[1, 2]), 2),
+            "any": seq([1], {"k": [2]}, seq(seq([3]))),
+            "tu": seq([1, [2]], 5),
+            "ar": [seq([1]), seq({"z": [2]})],
+            "mp": {"k": seq([1], seq([2]))},
+            "extra_t": seq({"z": [1]}, [2])}
+    if owner == "fields":
+        vals.pop("extra_t")      # an undeclared key of a mutable Structure is no immutable field: shared by design
+    if only:
+        vals = {k: v for k, v in vals.items() if k in only}
+    return vals
+
+
 # ------------------------------------------------------------------ situations (one fresh world per call)
 
 class Situation:
@@ -441,6 +482,8 @@ def _build(case):
 
 
 def _kw(case, ctx):
+    if case.get("imm"):
+        return imm_values(case["imm"], as_doc=False, only=case.get("only"))
     return {k: dump.load_value(v, ctx) for k, v in case["kw"]}
 
 
@@ -522,7 +565,13 @@ def situation(case):
         return Situation([doc, mappings], source, shape, call)
 
     world = None
-    if case.get("ext"):
+    if case.get("schema") is not None:
+        cls = type("Raw" + str(case.get("n", 0)), (Structure,), {"_required": []})
+        decl = {"k": "struct", "name": cls.__name__, "required": [], "addl": True, "fields": []}
+    elif case.get("imm"):
+        cls, decl = build_imm_class(case["imm"])
+        ctx = C.make_ctx()
+    elif case.get("ext"):
         # hand-built class over the ext field kinds (with / without defaults) and a sibling class over the same
         # kinds: whatever is done to / with the first class must not change what the sibling maps to
         cls = build_ext_class("Ext" + str(case.get("n", 0)), case["ext"])
@@ -549,13 +598,18 @@ def situation(case):
                     lambda: cls_fp(cls) + ("|" + world() if world else "")
             return Situation([state], state, shape, call, world=world)
         if op == "schemaToCode":
-            schema, defs = structure_to_schema(cls, {})
+            if case.get("schema") is not None:
+                schema, defs = copy.deepcopy(case["schema"]), copy.deepcopy(case.get("definitions", {}))
+            else:
+                schema, defs = structure_to_schema(cls, {})
             holder = {"schema": schema, "definitions": defs}
             sshape = {"k": "root", "fields": [["schema", {"w": "schema", "inner": "any"}],
                                               ["definitions", {"w": "schema", "inner": "any"}]]}
 
             def call():
+                from typedpy import schema_definitions_to_code
                 code = schema_to_struct_code("Gen" + cls.__name__, schema, defs, additional_fields=_ext_classes())
+                code = code + "\n" + str(schema_definitions_to_code(defs, additional_fields=_ext_classes()))
                 return code, code, lambda: json.dumps(AP.deep_canon(holder), sort_keys=True, default=str)
             return Situation([holder], holder, sshape, call, world=world)
         names = list(case.get("names", []))
@@ -630,7 +684,7 @@ def situation(case):
         return Situation([kw], kw, shape, call)
 
     if op == "deserialize":
-        doc = dump.load_value(case["doc"], ctx)
+        doc = imm_values(case["imm"], as_doc=True) if case.get("imm") else dump.load_value(case["doc"], ctx)
         shape = struct_shape(decl, doc, "root") if isinstance(doc, dict) else "any"
         mapper = _mapper_arg(case, decl)
         sit = Situation([doc, mapper], doc, shape, None)
@@ -657,7 +711,9 @@ def situation(case):
     if op == "setattr":
         name = case["field"]
         src = None
-        if case.get("fromInstance"):
+        if case.get("imm"):
+            value = imm_values(case["imm"], as_doc=False)["any" if name == "opt" else name]
+        elif case.get("fromInstance"):
             # x.f = y.f: the value is the typed wrapper of another instance of the same class
             src = cls(**_kw(case, ctx))
             value = getattr(src, name)
@@ -788,7 +844,8 @@ def _heap_order(root):
 def immutable_output(case):
     """an ImmutableStructure deep-copies what it is given and hands every value out through the deep-copying
     accessor, which the heap model (one table for all classes) does not describe: oracle only for these"""
-    return bool(case.get("cls", {}).get("immutable")) and case["op"] in OUTPUT_OPS + ("construct", "setattr", "deserialize")
+    return bool(case.get("cls", {}).get("immutable") or case.get("imm")) and \
+        case["op"] in OUTPUT_OPS + ("construct", "setattr", "deserialize")
 
 
 def line(case, impl):
@@ -863,8 +920,8 @@ def judge(case, impl, model):
             site, chain = responsible_site(impl["shape"], blame_path, modes)
             if site is None:
                 continue
-            if not all(site_in_scope(op, k) for _, k, _ in chain):
-                continue
+            if not immutable_output(case) and not all(site_in_scope(op, k) for _, k, _ in chain):
+                continue      # (an immutable owner copies everything it is given: every site is in scope there)
             kind, cat = site
             pheno = "retained-arg" if op in INPUT_OPS else "result-aliases-internal"
             if immutable_output(case):
@@ -949,6 +1006,33 @@ def colliding_keys(w):
     return False
 
 
+SIMPLE_DEFAULT = {"integer": 0, "string": "d", "boolean": True}
+
+
+def add_nested_defaults(d, rng, top=True):
+    """give nested (inline / referenced) structures a defaulted scalar sub-field that their `required` still
+    names — the shape structure_to_schema exports for them (generator post-processing, in place)"""
+    if isinstance(d, list):
+        for x in d:
+            add_nested_defaults(x, rng, top)
+        return False
+    if not isinstance(d, dict):
+        return False
+    hit = False
+    if d.get("k") == "struct" and not top and rng.random() < 0.6:
+        cands = [n for n, fd in d["fields"] if fd["k"] in SIMPLE_DEFAULT and not fd.get("min") and not fd.get("max")
+                 and not fd.get("mult") and not fd.get("pattern") and not fd.get("minLength") and fd.get("sign", "any") == "any"]
+        if cands:
+            n = rng.choice(cands)
+            fd = dict(d["fields"])[n]
+            d["defaults"] = [[n, SIMPLE_DEFAULT[fd["k"]]]]
+            hit = True
+    for k, v in d.items():
+        if k != "defaults":
+            hit = add_nested_defaults(v, rng, False) or hit
+    return hit
+
+
 def gen_cases(rng, tier, n_classes):
     return [c for c in _gen_cases(rng, tier, n_classes)
             if c["op"] == "convert" or not colliding_keys([c.get("kw"), c.get("value"), c.get("doc")])]
@@ -1023,6 +1107,13 @@ def _gen_cases(rng, tier, n_classes):
         if rng.random() < 0.5:
             cases.append(dict(base, op="toSchema"))
             cases.append(dict(base, op="schemaToCode"))
+        if '"struct"' in json.dumps(cls["fields"]):
+            # class -> schema -> code with nested structures that have defaulted sub-fields
+            c2 = copy.deepcopy(cls)
+            c2["name"] = cls["name"] + "D"
+            if add_nested_defaults(c2, rng):
+                cases.append({"suite": "alias", "cls": C.fix_accepts(c2), "op": "toSchema"})
+                cases.append({"suite": "alias", "cls": c2, "op": "schemaToCode"})
     for doc in CONVERT_DOCS:
         for i in range(len(CONVERT_MAPPINGS)):
             ms = [CONVERT_MAPPINGS[j] for j in rng.sample(range(len(CONVERT_MAPPINGS)), rng.randint(1, 3))]
@@ -1193,6 +1284,35 @@ def directed_cases():
             for ignore in (["a"], ["rows", "m"]):
                 out.append({"suite": "alias", "op": "construct", "cls": nestd, "kw": nkw, "src": how, "konst": konst,
                             "ignore": ignore})
+    # schema -> code on schemas with INLINE nested objects (depth 2-3) that carry defaults / required lists / enums,
+    # and on definitions: exported from classes with StructureReference fields, and hand-built
+    leaf = dict(_cls("InlLeaf", [["p", INT], ["q", STR], ["e", {"k": "enumLit", "values": ["a", "b"]}]], required=["p", "q"]),
+                inline=True, defaults=[["q", "dq"]])
+    mid = dict(_cls("InlMid", [["leaf", leaf], ["n", INT]], required=["leaf", "n"]), inline=True, defaults=[["n", 7]])
+    refd = _cls("RefWithInline", [["in1", copy.deepcopy(leaf)], ["s", STR]], required=["in1"])
+    for nm, fields in (("Depth2", [["a", copy.deepcopy(leaf)], ["z", INT]]), ("Depth3", [["m", mid], ["z", INT]]),
+                       ("ViaDefs", [["r", refd], ["arr", {"k": "seqOf", "item": copy.deepcopy(refd)}]])):
+        cl = _cls(nm, fields, required=[fields[0][0]], addl=True)
+        out.append({"suite": "alias", "op": "toSchema", "cls": cl})
+        out.append({"suite": "alias", "op": "schemaToCode", "cls": cl})
+    obj = lambda props, req, **kw: dict({"type": "object", "properties": props, "required": req}, **kw)
+    inner_s = obj({"p": {"type": "integer"}, "q": {"type": "string", "default": "dq"}, "e": {"enum": ["a", "b"]}}, ["p", "q"])
+    raw = obj({"a": copy.deepcopy(inner_s), "b": obj({"c": copy.deepcopy(inner_s), "n": {"type": "integer", "default": 1}}, ["c", "n"]),
+               "l": {"type": "array", "items": copy.deepcopy(inner_s)}, "r": {"$ref": "#/definitions/D"},
+               "t": {"type": "string", "default": "x"}}, ["a", "t"], additionalProperties=False)
+    raw_defs = {"D": obj({"in1": copy.deepcopy(inner_s), "s": {"type": "string", "default": "y"}}, ["in1", "s"])}
+    out.append({"suite": "alias", "op": "schemaToCode", "schema": raw, "definitions": raw_defs, "n": 1})
+    out.append({"suite": "alias", "op": "schemaToCode", "schema": copy.deepcopy(inner_s), "definitions": {}, "n": 2})
+    # immutable owners (ImmutableStructure; a Structure whose fields are immutable=True) given tuple-valued data
+    # with mutable elements at depth 1-2: Tuple of structures, Anything / untyped Array / Map holding tuples of
+    # lists and dicts, additional properties; constructor, Deserializer (JSON lists), first assignment
+    for owner in ("structure", "fields"):
+        out.append({"suite": "alias", "op": "construct", "imm": owner})
+        out.append({"suite": "alias", "op": "deserialize", "imm": owner})
+        for only in (["ts"], ["any"], ["tu"], ["ar", "mp"], ["extra_t"]):
+            out.append({"suite": "alias", "op": "construct", "imm": owner, "only": only})
+    out.append({"suite": "alias", "op": "setattr", "imm": "fields", "only": ["ts"], "field": "opt"})
+    out.append({"suite": "alias", "op": "setattr", "imm": "fields", "only": ["any"], "field": "tu"})
     # schema stream over the ext field kinds, with and without defaults (plain value, callable), sibling class
     # over the same kinds re-exported before/after; history "export a class with defaulted fields, then another"
     kinds = ["IPV4", "HostName", "EmailAddress", "DateString", "TimeString", "DateField", "DecimalNumber",
